@@ -225,6 +225,45 @@ def parse_strace(path: str, start_cwd: str) -> T.Tuple[T.List[Ev], T.Dict[str, i
     return events, stats
 
 
+_SELFTEST_LOG = r'''100 execve("/bin/sh", ["/bin/sh", "-c", "x"], 0x7 /* 8 vars */) = 0
+100 openat(AT_FDCWD</b>, "sub/gen.h", O_RDONLY|O_NOCTTY) = 3</b/sub/gen.h>
+100 openat(AT_FDCWD</b>, "out.o", O_RDWR|O_CREAT|O_TRUNC, 0666) = 4</b/out.o>
+101 chdir("/b/sub")                  = 0
+101 access("x.txt", R_OK)            = 0
+101 execve("./tool", ["./tool", "a\"b"], 0x7 /* 3 vars */ <unfinished ...>
+100 newfstatat(AT_FDCWD</b>, "missing.h", 0x7ffc, 0) = -1 ENOENT (No such file or directory)
+101 <... execve resumed>)             = 0
+101 readlink("/b/sub/tool", 0x7ffd, 1023) = -1 EINVAL (Invalid argument)
+100 openat(AT_FDCWD</b>, "lnk.so", O_RDONLY|O_CLOEXEC) = 3</b/real.so.1>
+100 newfstatat(3</b/real.so.1>, "", {st_mode=S_IFREG|0644, st_size=3, ...}, AT_EMPTY_PATH) = 0
+100 unlink("old.a")                   = 0
+100 rename("tmp.x", "final.x")        = 0
+100 --- SIGCHLD {si_signo=SIGCHLD, si_code=CLD_EXITED, si_pid=101, si_uid=0, si_status=0, si_utime=0, si_stime=0} ---
+102 openat(AT_FDCWD</b/d with space>, "a\303\251.h", O_RDONLY) = -1 ENOENT (No such file or directory)
+'''
+
+
+def parser_selftest(scratch: str) -> T.List[str]:
+    """The offline checker is only as good as its reading of strace output: known log, known events."""
+    p = os.path.join(scratch, 'selftest.strace')
+    with open(p, 'w', encoding='utf-8') as f:
+        f.write(_SELFTEST_LOG)
+    evs, st = parse_strace(p, '/b')
+    got = {(e.kind, e.path, e.ok) for e in evs}
+    want = {('exec', '/bin/sh', True), ('read', '/b/sub/gen.h', True), ('write', '/b/out.o', True),
+            ('stat', '/b/sub/x.txt', True), ('exec', '/b/sub/tool', True), ('stat', '/b/missing.h', False),
+            ('stat', '/b/sub/tool', True), ('read', '/b/lnk.so', True), ('read', '/b/real.so.1', True),
+            ('write', '/b/old.a', True), ('write', '/b/tmp.x', True), ('write', '/b/final.x', True),
+            ('read', '/b/tmp.x', True), ('read', '/b/d with space/a\u00e9.h', False)}
+    problems = []
+    if got != want:
+        problems.append(f'missing={sorted(want - got)} unexpected={sorted(got - want)}')
+    if st['unparsed']:
+        problems.append(f"unparsed={st['unparsed']}")
+    os.unlink(p)
+    return problems
+
+
 # ------------------------------------------------------------------------------------------------
 # graph helpers
 # ------------------------------------------------------------------------------------------------
@@ -830,6 +869,10 @@ def main() -> int:
         return replay(chk, os.environ['VERIF_REPLAY'])
     runner.preload()
     scratch = os.path.realpath(common.scratch_dir('c05'))
+    st_problems = parser_selftest(scratch)
+    chk.count('monitor:strace_parser_selftest_events', 14)
+    if st_problems:
+        chk.inconclusive.append('strace parser self-test failed: ' + '; '.join(st_problems)[:400])
     quick = chk.tier == 'quick'
     nproj = 24 if quick else 300
     nsched = 6 if quick else 20
